@@ -37,6 +37,7 @@ type Feat struct {
 	Curves    bool `json:"curves"`
 	Arcs      bool `json:"arcs"`
 	ArcMin    bool `json:"arcmin"`
+	ArcChordRx bool `json:"arcchordrx"`
 	Spike     bool `json:"spike"`
 }
 
